@@ -11,7 +11,7 @@ RULE = ("seeded programs of 1-4 activities each running `async for now in interv
         "postpones repeatedly. Non-trivial = some body ran at least as long as the period, the "
         "period is 0, or an until-block cut the ticker; distinct = distinct per-actor sequence "
         "of (event, time).")
-BUDGET = {"quick": {"cases": 120000, "wall_s": 100, "chunk": 250},
+BUDGET = {"quick": {"cases": 60000, "wall_s": 100, "chunk": 250},
           "thorough": {"cases": 1200000, "wall_s": 1500, "chunk": 500}}
 ASSUMPTIONS = ["periods and durations are dyadic rationals, so the grid arithmetic is exact"]
 LEVEL_TEXT = ("Exploration: the sequence of yielded times and of time.now at every iteration is "
@@ -83,6 +83,19 @@ def generate(rng, tier):
             ops.append(op)
             ops.append({"op": "now"})
         actors.append({"name": "k%d" % i, "ops": ops})
+    if rng.random() < 0.5 and actors:
+        # a pulse: wakes on the same grid as one of the tickers and spins a little each time
+        model = actors[rng.randrange(len(actors))]
+        period = next((op["p"] if op["op"] == "ticker" else op["body"][0]["p"]
+                       for op in model["ops"] if op["op"] in ("ticker", "scope")), 1)
+        if period and period > 0:
+            ops = [dict(op) for op in model["ops"] if op["op"] == "sleep"][:1]
+            for _ in range(rng.randint(2, 6)):
+                ops.append({"op": "sleep", "d": period})
+                for _ in range(2):
+                    ops.append({"op": "now", "tag": "pulse"})
+                    ops.append({"op": "postpone", "k": 1})
+            actors.append({"name": "pulse", "ops": ops})
     if rng.random() < 0.7:
         spin = []
         if rng.random() < 0.5:
@@ -138,6 +151,21 @@ def check(rec):
         if problem is not None:
             bad("grid" if problem[0] == "resume-time" else problem[0],
                 "%s: %s" % (actor, problem[1]))
+    # an iteration never completes in the activation in which the previous body ended while
+    # other activities are runnable at that time
+    last_end = {}
+    for ev in rec.trace:
+        if ev[4] in ("interval.bodyend", "delay.bodyend"):
+            last_end[ev[3]] = ev
+        elif ev[4] in ("interval.tick", "delay.tick"):
+            prev = last_end.pop(ev[3], None)
+            if prev is not None and prev[1] == ev[1] and rec.acts:
+                behind = [a for a in rec.acts[ev[1]:] if a[1] == ev[2] and a[2] != ev[3]
+                          and not a[2].startswith("~")]
+                if behind:
+                    bad("no-yield-between-iterations",
+                        "%s ended a body and started the next iteration at t=%r in one activation "
+                        "although %s was runnable at that time" % (ev[3], ev[2], behind[0][2]))
     # a postponing spinner gets a turn between two iterations at the same time
     spins = [i for i, ev in enumerate(rec.trace) if ev[3] == "spinner" and ev[4] == "now"]
     if spins:
